@@ -247,12 +247,14 @@ type Policy struct {
 // Neutral is the collection-neutral policy: the implicit collection in Close removes nothing referenced or young.
 var Neutral = Policy{Grace: time.Hour}
 
-// Conf builds a config for a server under test: collection ticker off, deletes enabled.
+// Conf builds a config for a server under test: collection ticker idle, deletes enabled.
 func Conf(kind StoreKind, root string, p Policy) config.Config {
 	c := config.Config{
 		Storage: config.ConfigStorage{
 			RootDir: root,
-			GC: config.ConfigGC{Frequency: -1, GracePeriod: p.Grace, Untagged: BP(p.Untagged), ReferrersDangling: BP(p.Dangling),
+			// the ticker exists and never fires: a negative frequency would also switch off the collection that runs
+			// when a repository is released (expiry of the repository cache, Close), which the checks want to see
+			GC: config.ConfigGC{Frequency: 10000 * time.Hour, GracePeriod: p.Grace, Untagged: BP(p.Untagged), ReferrersDangling: BP(p.Dangling),
 				ReferrersWithSubj: BP(p.WithSubj), EmptyRepo: BP(p.EmptyRepo)},
 		},
 		API: config.ConfigAPI{DeleteEnabled: BP(true), Blob: config.ConfigAPIBlob{DeleteEnabled: BP(true)}},
